@@ -28,6 +28,9 @@ class HSym:
     def real(self, name, nn=False):
         return self.c.var(name, nn)
 
+    def integer(self, name, lo=None):
+        return self.c.ivar(name, lo)
+
     def array(self, x):
         return self.np.array(x)
 
@@ -92,6 +95,14 @@ class HConc:
         v = Fr(v) if not isinstance(v, Fr) else v
         # the value the implementation will actually see
         return Fr(float(v))
+
+    def integer(self, name, lo=None):
+        if name not in self.inputs:
+            raise PreconditionFailed('witness lacks %s' % name)
+        v = Fr(self.inputs[name])
+        if v.denominator != 1 or (lo is not None and v < lo):
+            raise PreconditionFailed('not an integer >= %s' % lo)
+        return int(v)
 
     def array(self, x):
         def conv(v):
